@@ -3,4 +3,4 @@ From Storage Require Import Base.Bytes Db.Mvcc Db.Workload.
 Extraction Language OCaml.
 Definition force_types : nat * N * Z := (O, 0%N, 0%Z).
 Definition workload_versions (ws : list wtx) : list wstate := serial_versions wstate wtx apply_wtx empty_state ws.
-Extraction "c18_model.ml" force_types workload_versions apply_wtx eval_query empty_state serial_answer.
+Extraction "c18_model.ml" force_types workload_versions apply_wtx eval_query eval_placed empty_state serial_answer.
